@@ -8,6 +8,8 @@ CLAIMS = {
          "bounded by history length and key count; measurement values are a concrete list (float formatting/parsing of arbitrary floats is outside); trusted: gosymex engine (validated per run against the native build), go/ssa, z3"),
  "C02": ("bounded symbolic execution of the real Reader/Files on symbolic lines and configuration histories; reference classifier and association-list model in the harness",
          "bounded by line length / number of lines / files; unicode predicates come from the real tables on both sides; os.Open is an environment stub"),
+ "C03": ("differential bounded symbolic execution: the reader's number paths (integer fast path, byte-slice ParseFloat/Atoi port) and the standard library's strconv are executed side by side on the same symbolic field bytes and must agree bit for bit / error for error; the integer fast path is checked against the exact value in 128-bit arithmetic",
+         "bounded by field length, alphabet and frames; symbolic digits only on the exact float path, long decimals through case-split frames; ASCII fields"),
  "C04": ("every float64 bit pattern as the measurement value (number parser stubbed) against 24 units, plus every unit string over a small alphabet up to a length bound, decided by the solver (cvc5 for float queries)",
          "number parser stubbed by an arbitrary float64 (C03's subject); NaN payloads not modelled; unit strings bounded"),
  "C05": ("bounded symbolic execution of the real Name.Parts/Base, extractors, projections and literal filters: every byte string up to the stated length is covered, not sampled",
